@@ -24,6 +24,16 @@ def load_units():
         if f.endswith('.rs'):
             u = U.Unit(os.path.join(UNITS, f))
             res[u.name] = u
+            # guard: a clause tagged with a property the unit's header does not list would never be run by that property's check
+            txt = open(os.path.join(UNITS, f)).read()
+            tags = set()
+            for m in re.finditer(r'^//@ensures P ([C0-9,]+)', txt, re.M):
+                tags |= set(m.group(1).split(','))
+            for m in re.finditer(r'^//! plemma: (C\d\d)', txt, re.M):
+                tags.add(m.group(1))
+            missing = sorted(tags - set(u.header['properties']))
+            if missing:
+                raise U.Maintenance('%s: clauses are tagged %s but the header lists only %s' % (u.name, ','.join(missing), ' '.join(u.header['properties'])))
     return res
 
 
